@@ -6,7 +6,8 @@
      finalize_wrapper_prog pfd          holes: 0 = plan (instance), 1 = final_plan (instance; a callable
                                         final_plan is called before the try, which for a generator function
                                         runs nothing -- same thing)
-     finalize_decorator_prog callable   holes: 0 = gen_func(...), 1 = final_plan()
+     finalize_decorator_prog callable   holes: 0 = gen_func(...), 1 = final_plan()  (one call of the decorated
+                                        function; decorated_calls k = k calls in a row, fresh holes per call)
      contingency_prog o                 holes: 0 = plan, 1 = except_plan (function of the exception),
                                         2 = else_plan (function), 3 = final_plan (function)
      pause_call                         `yield from pause()` : the Plan object's __iter__ generator delegating
@@ -48,14 +49,30 @@ Definition finalize_wrapper_prog (pause_for_debug : bool) : stmt :=
               (SIf (CTruthy 1) (SYieldFromHole None 1) SPass))              (* finally: if cleanup: ... *)
         (SReturn (RVar 0))).
 
-Definition finalize_decorator_prog (final_plan_callable : bool) : stmt :=
+(* one call of the decorated function: hp = hole of gen_func(...) for this call, hf = hole of final_plan()
+   for this call (dec_inner calls final_plan() itself, so every call has its own cleanup instance) *)
+Definition finalize_decorator_prog_at (final_plan_callable : bool) (hp hf : nat) : stmt :=
   SSeq (SIf (cb (negb final_plan_callable)) (SRaise ETypeError) SPass)
   (SSeq (set_cleanup true)
-  (SSeq (STry (SYieldFromHole (Some 0) 0)
+  (SSeq (STry (SYieldFromHole (Some 0) hp)
               [(PGeneratorExit, SSeq (set_cleanup false) SReraise)]
               SPass
-              (SIf (CTruthy 1) (SYieldFromHole None 1) SPass))
+              (SIf (CTruthy 1) (SYieldFromHole None hf) SPass))
         (SReturn (RVar 0)))).
+
+Definition finalize_decorator_prog (final_plan_callable : bool) : stmt :=
+  finalize_decorator_prog_at final_plan_callable 0 1.
+
+(* the decorated function invoked k times in a row by one caller:
+     r = None;  for j in range(k): r = yield from decorated();  return r
+   call j wraps a fresh gen_func(...) (hole 2j) and a fresh final_plan() (hole 2j+1) *)
+Fixpoint decorated_calls_from (j k : nat) : stmt :=
+  match k with
+  | O => SReturn (RVar 0)
+  | S k' => SSeq (SYieldFrom (Some 0) (finalize_decorator_prog_at true (2 * j) (2 * j + 1)))
+                 (decorated_calls_from (S j) k')
+  end.
+Definition decorated_calls (k : nat) : stmt := decorated_calls_from 0 k.
 
 Record cw_opts := mkOpts {
   o_exc : bool;      (* except_plan given *)
@@ -267,3 +284,79 @@ Definition terminal_obs (ob : obs) : bool :=
   match ob with OYield _ => false | _ => true end.
 Definition ge_obs (ob : obs) : bool :=
   match ob with OClosed | OFuel => true | ORaise e => is_GeneratorExit e | _ => false end.
+
+(* ------------------------------------------------------------------ the decorated function called twice
+   Specification of  decorated_calls 2 : the single-call specification run for the first call (wrapped plan p1,
+   a fresh instance of the final plan), and when that call returns, run again from the start for the second
+   call (p2, ANOTHER fresh instance of the final plan; its plans are numbered 2 and 3 in the call log).
+   An exception out of a call ends the caller; close / a GeneratorExit kind closes the running call
+   (delivering a plain GeneratorExit to it) and then ends the caller with that exception. *)
+Definition shift_call (d : nat) (c : call) : call :=
+  match c with Call i x => Call (i + d) x | Enter i => Enter (i + d) end.
+
+Section TwoCalls.
+  Context {P : Type}.
+  Variable hres : P -> input -> outcome P.
+  Variable fin_plan : P.
+
+  Definition call_spec : @phase P -> input -> outcome (@phase P) * list call :=
+    cw_lresume hres true (finalize_opts false) true 1 2 1 (fun _ => fin_plan) fin_plan fin_plan.
+
+  Inductive two_state :=
+    | QStart (p1 p2 : P)
+    | Q1 (ph : @phase P) (p2 : P)        (* first call running *)
+    | Q2 (ph : @phase P).                (* second call running *)
+
+  Definition q2_result (r : outcome (@phase P) * list call) (log : list call) : outcome two_state * list call :=
+    let log' := log ++ map (shift_call 2) (snd r) in
+    match fst r with
+    | Yielded m ph' => (Yielded m (Q2 ph'), log')
+    | Returned v => (Returned v, log')
+    | Raised e => (Raised e, log')
+    | OutOfFuel => (OutOfFuel, log')
+    end.
+
+  Definition q1_result (r : outcome (@phase P) * list call) (p2 : P) : outcome two_state * list call :=
+    match fst r with
+    | Yielded m ph' => (Yielded m (Q1 ph' p2), snd r)
+    | Returned _ => q2_result (call_spec (PhStart p2) (Send VNone)) (snd r)     (* the next call starts at once *)
+    | Raised e => (Raised e, snd r)
+    | OutOfFuel => (OutOfFuel, snd r)
+    end.
+
+  (* close() of the running call by the caller's `yield from`, then e in the caller *)
+  Definition closed_call (r : outcome (@phase P) * list call) (e : exn) (log : list call) : outcome two_state * list call :=
+    match close_result (fst r) with
+    | CloseOk => (Raised e, log)
+    | CloseRaised e' => (Raised e', log)
+    | CloseFuel => (OutOfFuel, log)
+    end.
+
+  Definition two_lresume (q : two_state) (i : input) : outcome two_state * list call :=
+    match q with
+    | QStart p1 p2 =>
+        match i with
+        | Send VNone => q1_result (call_spec (PhStart p1) (Send VNone)) p2
+        | Send _ => (Raised ETypeError, [])
+        | Throw e => (Raised e, [])
+        | Close => (Raised EGeneratorExit, [])
+        end
+    | Q1 ph p2 =>
+        match i with
+        | Send v => q1_result (call_spec ph (Send v)) p2
+        | Throw e =>
+            if is_GeneratorExit e then closed_call (call_spec ph Close) e (snd (call_spec ph Close))
+            else q1_result (call_spec ph (Throw e)) p2
+        | Close => closed_call (call_spec ph Close) EGeneratorExit (snd (call_spec ph Close))
+        end
+    | Q2 ph =>
+        match i with
+        | Send v => q2_result (call_spec ph (Send v)) []
+        | Throw e =>
+            if is_GeneratorExit e then
+              closed_call (call_spec ph Close) e (map (shift_call 2) (snd (call_spec ph Close)))
+            else q2_result (call_spec ph (Throw e)) []
+        | Close => closed_call (call_spec ph Close) EGeneratorExit (map (shift_call 2) (snd (call_spec ph Close)))
+        end
+    end.
+End TwoCalls.
